@@ -6,8 +6,8 @@ W="$1"; FILTER="$2"; shift 2
 cd "$W" || exit 2
 export CARGO_NET_OFFLINE=true
 echo "== worktree status"; git status --short | head
-git diff -- falcon-rust/src > /tmp/seed/.cur.diff
-if ! diff -q <(git apply --numstat seeded/patch.diff 2>/dev/null) <(git apply --numstat /tmp/seed/.cur.diff 2>/dev/null) >/dev/null; then echo "NOTE: working tree diff differs from seeded/patch.diff (numstat)"; fi
+git diff -- falcon-rust/src > /tmp/seed/.cur.$$.diff
+if ! diff -q <(git apply --numstat seeded/patch.diff 2>/dev/null) <(git apply --numstat /tmp/seed/.cur.$$.diff 2>/dev/null) >/dev/null; then echo "NOTE: working tree diff differs from seeded/patch.diff (numstat)"; fi
 echo "== suite with change"
 cargo test --workspace --no-fail-fast --offline 2>&1 | grep -E "^test result|FAILED|failed" | head -8
 echo "== build with hooks cfg"
